@@ -310,6 +310,8 @@ package frugal
 //@ func lib.FBaseProcessorFunction.trapError(f, ctx, fctx, oprot, method, err)
 //@   ensures tooLargeErr(err) ==> result == nil && ncalls("lib.FBaseProcessorFunction.sendError") == 1
 //@   ensures tooLargeErr(err) ==> callarg("lib.FBaseProcessorFunction.sendError", 0, 4) == APPLICATION_EXCEPTION_RESPONSE_TOO_LARGE && callarg("lib.FBaseProcessorFunction.sendError", 0, 3) == oprot
+// the error reply travels with the request's own context (it holds the op id the caller is waiting on) and names the method that was called
+//@   ensures tooLargeErr(err) ==> callarg("lib.FBaseProcessorFunction.sendError", 0, 2) == fctx && callarg("lib.FBaseProcessorFunction.sendError", 0, 1) == ctx && callarg("lib.FBaseProcessorFunction.sendError", 0, 5) == method
 //@   ensures !tooLargeErr(err) ==> result == err && ncalls("lib.FBaseProcessorFunction.sendError") == 0
 //@   modifies *
 
